@@ -2129,7 +2129,19 @@ def r03f(P, R):
 
 def r03g(P, R):
     from c18 import gate
+    before = len(R.results)
     gate(P, R, rule="R03-g")
+    # "generate runs check first" is about the checks being *executed* on the way to the printers (the gate instances above decide
+    # that their verdict is honoured), not about which CLI function does it or whether the run is recorded for the output: the
+    # operation and schema checkers must be reachable from run_generate
+    mine = [r for r in R.results[before:] if r["key"] == "R03-g:generate-runs-check"]
+    if mine:
+        R.results[:] = R.results[:before] + [r for r in R.results[before:] if r["key"] != "R03-g:generate-runs-check"]
+        rg = P.fn("nitrogql_cli::generate::run_generate")
+        reach = P.reachable([rg])
+        R.check("R03-g", "generate-runs-check", entry(P).path in reach,
+                "run_generate executes the operation checker before generating (when the context is unresolved)",
+                "check_operation_document is not reachable from run_generate: generate no longer checks the project before printing", loc=rg.loc())
 
 
 def recursion_args(P, R, rule, fns):
